@@ -189,7 +189,7 @@ theorem divLoop_spec (L : Lawful O v) (hT : Total O) (bl : List α) (c : α) (zs
 -- ------------------------------------------------------------------ div
 
 /-- the guards of `div` in terms of the denoted polynomials -/
-theorem div_guards (L : Lawful O v) (a b : List α) :
+theorem div_guards (L : Lawful O v) (b : List α) :
     (degreeOf O b = 0 ∧ b.isEmpty = true ∨ degreeOf O b = 0 ∧ headIsZero O b = true) ↔ toPoly v b = 0 := by
   constructor
   · rintro (⟨_, h⟩ | ⟨h0, h⟩)
@@ -227,8 +227,8 @@ theorem div_spec (L : Lawful O v) (hT : Total O) (a b : List α)
   have hbdeg : (toPoly v b).degree = (bl.length : WithBot ℕ) := by
     rw [degree_eq_natDegree hb, ← degreeOf_eq_natDegree L, hbl]
   have hg1 : ¬ degreeOf O a < degreeOf O b := by omega
-  have hg2 : ¬ (degreeOf O b = 0 ∧ b.isEmpty = true) := fun h => hb ((div_guards L a b).1 (Or.inl h))
-  have hg3 : ¬ (degreeOf O b = 0 ∧ headIsZero O b = true) := fun h => hb ((div_guards L a b).1 (Or.inr h))
+  have hg2 : ¬ (degreeOf O b = 0 ∧ b.isEmpty = true) := fun h => hb ((div_guards L b).1 (Or.inl h))
+  have hg3 : ¬ (degreeOf O b = 0 ∧ headIsZero O b = true) := fun h => hb ((div_guards L b).1 (Or.inr h))
   by_cases ha : a = []
   · subst ha
     have hd0 : degreeOf O ([] : List α) = 0 := rfl
@@ -257,7 +257,7 @@ theorem div_spec (L : Lawful O v) (hT : Total O) (a b : List α)
       ?_, ?_⟩
     · unfold div
       simp only [hg1, hg2, hg3, if_false, hae, Bool.false_eq_true]
-      rw [← hbs, ← hbl] at e
+      rw [← hbs, hbl] at e
       rw [← hn, e, bind_ok]
     · have := inv.i1
       simp only [pow_zero, mul_one, List.drop_zero] at this
@@ -282,12 +282,13 @@ theorem div_panic_iff (L : Lawful O v) (hT : Total O) (a b : List α) :
     by_cases h1 : degreeOf O a < degreeOf O b
     · exact ⟨"cannot divide by polynomial of higher degree", by simp [h1]⟩
     · have hb : toPoly v b = 0 := by tauto
-      rcases (div_guards L a b).2 hb with h2 | h3
-      · exact ⟨"cannot divide by empty polynomial", by simp [h1, h2.1, h2.2]⟩
+      rcases (div_guards L b).2 hb with h2 | h3
+      · exact ⟨"cannot divide by empty polynomial", by simp [h2.1, h2.2]⟩
       · by_cases h2 : degreeOf O b = 0 ∧ b.isEmpty = true
-        · exact ⟨"cannot divide by empty polynomial", by simp [h1, h2.1, h2.2]⟩
+        · exact ⟨"cannot divide by empty polynomial", by simp [h2.1, h2.2]⟩
         · refine ⟨"cannot divide polynomial by zero", ?_⟩
-          simp only [h1, if_false, h2, h3.1, h3.2, and_self, if_true]
+          simp only []
+          rw [if_neg h1, if_neg h2, if_pos h3]
 
 end
 
